@@ -9,6 +9,7 @@
 -/
 import ChessVerif.Lemmas.Refine
 import ChessVerif.Lemmas.LegalShape
+import ChessVerif.Lemmas.WfStep
 namespace Chess.Props
 
 /-- C02 (one move): for every rules-level move `m` that has the shape of a legal move in a well-formed position
@@ -97,6 +98,37 @@ theorem C02_castling_clock (T : ZTable) (p : Position) (m : Spec.SMove) (ok : St
   rw [hnotep]
   show (if (decide (kindOf (gd p.board m.src) = 1) || (decide (gd p.board m.dst ≠ 0) || false)) = true then 0 else p.halfmove + 1) = _
   simp [hk1, hdst]
+
+/-- C02 (the quantifier is closed under legal play): the position the rules give after a legal move of a well-formed position is
+    well-formed again — board shape, piece counts (captures, promotions), the kings apart, the side that has just moved not in check,
+    no pawn on an end rank, castling rights only with king and rook at home, and an en-passant square only behind a pawn that has just
+    made a double step from an empty origin over an empty square (Lemmas/WfStep.lean) -/
+theorem C02_wf_invariant (s : Spec.SPos) (hwf : Spec.wf s = true) (m : Spec.SMove) (hm : m ∈ Spec.legalMoves s) :
+    Spec.wf (Spec.apply s m) = true := wf_apply s hwf m hm
+
+theorem replayLegal_of_game (s : Spec.SPos) (hwf : Spec.wf s = true) (ms : List Spec.SMove) (hg : LegalGame s ms)
+    (hh : s.halfmove + ms.length < 65535) : ReplayLegal s ms := by
+  induction ms generalizing s with
+  | nil => trivial
+  | cons m ms ih =>
+    obtain ⟨h1, h2⟩ := hg
+    simp only [List.length_cons] at hh
+    refine ⟨hwf, h1, by omega, ih (Spec.apply s m) (wf_apply s hwf m h1) h2 ?_⟩
+    rw [apply_half]
+    split <;> omega
+
+/-- **C02 (FULL, games)**: replaying ANY legal game — each move legal under the rules in the position reached so far — from a
+    well-formed position leaves the model in exactly the position the rules give, and that position is well-formed again (so every
+    position theorem applies to it).  The only standing assumptions: ply counter in step with the side, and the half-move clock stays
+    below 65535 (it is a uint16_t). -/
+theorem C02_game (T : ZTable) (ms : List Spec.SMove) (p : Position) (hp : PlyOK p) (hwf : Spec.wf (absPos p) = true)
+    (hg : LegalGame (absPos p) ms) (hh : p.halfmove + ms.length < 65535) :
+    absPos (replayModel T p ms) = ms.foldl Spec.apply (absPos p) ∧ Spec.wf (ms.foldl Spec.apply (absPos p)) = true :=
+  ⟨C02_replay_legal T ms p hp (replayLegal_of_game (absPos p) hwf ms hg hh), wf_game (absPos p) hwf ms hg⟩
+
+/-- every position of every legal game from the initial position is well-formed -/
+theorem C02_reachable_wf (ms : List Spec.SMove) (h : LegalGame startSPos ms) : Spec.wf (ms.foldl Spec.apply startSPos) = true :=
+  wf_reachable ms h
 
 /-- non-vacuity: 1.e4 from the start position satisfies the hypotheses (start position written out) -/
 def startBoard : List Nat :=
